@@ -74,6 +74,7 @@ def run_corpus(prop):
     for r in res:
         if r['status'] == 'skipped':
             out['skipped'] += 1
+            out.setdefault('skipped_cases', []).append({'id': r['id'], 'why': r.get('why')})
             continue
         if r['kind'] == 'mutant':
             out['mutants'] += 1
